@@ -1,0 +1,27 @@
+//go:build verif
+
+// Ghost lemma for package scorch (read by /verif/gocv; the function is compiled only with the verif
+// tag and is never called).
+
+package scorch
+
+// The shape the introducer establishes for a root snapshot (rootShape: offsets are the running
+// document counts of the segments) implies what the term field readers require of a snapshot
+// (offsetsOK: offsets pairwise ordered, starting at 0, small enough for the global id arithmetic),
+// for snapshots of at most 2^20 segments (segments hold at most 2^32 documents). The loop walks the
+// offsets once; its invariant is the statement for the prefix.
+//@ func verifLemmaRunningOffsetsOrdered
+//@   props C08 C02 C01
+//@   mode int
+//@   reveal offsetsOK
+//@   requires rootShape(is) && len(is.segment) <= 1048576
+//@   ensures offsetsOK(is)
+//@   loop 0: invariant 1 <= k && k <= len(is.offsets) && forall(p, 0, k, is.offsets[p] <= 4294967296 * p) && forall(p, 0, k, forall(q, p+1, k, is.offsets[p] <= is.offsets[q]))
+//@   loop 0: decreases len(is.offsets) - k
+func verifLemmaRunningOffsetsOrdered(is *IndexSnapshot) {
+	if len(is.offsets) == 0 {
+		return
+	}
+	for k := 1; k < len(is.offsets); k++ {
+	}
+}
